@@ -18,6 +18,11 @@ def pNum (s : String) : Float :=
 def pOpt (s : String) : Option Float := if s == "none" then none else some (pNum s)
 /-- strings travel as `s:<text>` so that the empty string is a token -/
 def pStr (s : String) : String := (s.drop 2).toString
+def pDateVal (s : String) : Int × Int × Int :=
+  match (s.splitOn "-").map String.toInt? with
+  | [some y, some m, some d] => (y, m, d)
+  | _ => (0, 0, 0)
+def pDate (s : String) : Option (Int × Int × Int) := if s == "none" then none else some (pDateVal s)
 def pNat (s : String) : Nat := s.toNat?.getD 0
 
 class ToWire (α : Type) where
@@ -28,6 +33,7 @@ instance : ToWire Float := ⟨PyF.hex⟩
 instance : ToWire String := ⟨fun s => "s:" ++ s⟩
 instance : ToWire Nat := ⟨fun n => "n:" ++ toString n⟩
 instance : ToWire Bool := ⟨fun b => if b then "b:1" else "b:0"⟩
+instance : ToWire Int := ⟨fun n => "i:" ++ toString n⟩
 instance : ToWire Unit := ⟨fun _ => "unit"⟩
 instance {α β} [ToWire α] [ToWire β] : ToWire (α × β) := ⟨fun p => wire p.1 ++ " " ++ wire p.2⟩
 instance {α} [ToWire α] : ToWire (Option α) := ⟨fun o => match o with | none => "none" | some v => wire v⟩
